@@ -64,3 +64,202 @@ class _fbes:
         if result is None:
             return True
         return And(is_none(attr(s, "_bins")), is_none(attr(s, "_numpy_bins")))
+
+
+# ---------------------------------------------------------------------------------------------- accessors (unbounded bin count)
+
+def _acc_inputs(b):
+    me = fixed_width(b, "B", count=None, adaptive=b.cfg.adaptive if hasattr(b.cfg, "adaptive") else False)
+    return dict(self=me)
+
+
+def _prop_invoke(name):
+    def invoke(I, fn, a, cfg):
+        if I is not None:
+            return I.getattr(a.self, name)
+        return getattr(a.self, name)
+    return invoke
+
+
+@contract(K + ".first_edge", props=["C07", "C04"])
+class _first_edge:
+    inputs = staticmethod(_acc_inputs)
+    invoke = staticmethod(_prop_invoke("first_edge"))
+
+    @ensures("origin_plus_times_min_widths")
+    def _(a, old, result):
+        s = old.self
+        return And(result == grid(s._times_min, s._bin_width, s._shift, 0), same_binning(old.self, a.self))
+
+
+@contract(K + ".last_edge", props=["C07", "C04"])
+class _last_edge:
+    inputs = staticmethod(_acc_inputs)
+    invoke = staticmethod(_prop_invoke("last_edge"))
+
+    @ensures("first_edge_plus_count_widths")
+    def _(a, old, result):
+        s = old.self
+        return And(result == grid(s._times_min, s._bin_width, s._shift, s._bin_count), same_binning(old.self, a.self))
+
+
+@contract(K + ".numpy_bins", props=["C07", "C04"])
+class _numpy_bins:
+    inputs = staticmethod(_acc_inputs)
+    invoke = staticmethod(_prop_invoke("numpy_bins"))
+
+    @ensures("every_edge_is_on_the_grid")
+    def _(a, old, result):
+        s = old.self
+        c = s._bin_count
+        frame = And(s._bin_count == a.self._bin_count, s._times_min == a.self._times_min)
+        n0 = shape_of(result)[0]
+        if isinstance(n0, int) and n0 == 0:      # the empty binning (count == 0 on this path)
+            return And(c == 0, frame)
+        return And(c > 0, length(result) == c + 1,
+                   forall(0, c + 1, lambda i: result[i] == grid(s._times_min, s._bin_width, s._shift, i)), frame)
+
+
+@contract(K + ".bin_count", props=["C07"])
+class _bin_count:
+    inputs = staticmethod(_acc_inputs)
+    invoke = staticmethod(_prop_invoke("bin_count"))
+
+    @ensures("stored_count")
+    def _(a, old, result):
+        return result == old.self._bin_count
+
+
+@contract(K + ".copy", props=["C07", "C12"])
+class _fw_copy:
+    def configs():
+        return [{"adaptive": False, "empty": False}, {"adaptive": True, "empty": False}, {"adaptive": True, "empty": True}]
+
+    def inputs(b):
+        if b.cfg.empty:
+            return dict(self=fixed_width(b, "B", count=0, adaptive=b.cfg.adaptive))
+        me = fixed_width(b, "B", count=None, adaptive=b.cfg.adaptive)
+        b.assume(me._bin_count > 0)
+        return dict(self=me)
+
+    @ensures("same_class_same_grid_fresh_object")
+    def _(a, old, result):
+        return And(result is not a.self, same_binning(old.self, result), same_binning(old.self, a.self))
+
+
+@contract(K + ".__init__", props=["C07"])
+class _fw_init:
+    def configs():
+        out = []
+        for minkind in ("none", "min", "times_min", "shift"):
+            for count in ("zero", "pos", "neg"):
+                out.append({"minkind": minkind, "count": count, "adaptive": False, "ire": False})
+        out.append({"minkind": "times_min", "count": "pos", "adaptive": True, "ire": False})
+        out.append({"minkind": "times_min", "count": "pos", "adaptive": True, "ire": True})
+        return out
+
+    def inputs(b):
+        c = b.cfg
+        w = b.real("w")
+        n = {"zero": 0, "pos": b.int("n"), "neg": b.int("n")}[c.count]
+        if c.count == "pos":
+            b.assume(n > 0)
+        if c.count == "neg":
+            b.assume(n < 0)
+        kw = dict(self=b.obj(K), bin_width=w, bin_count=n, adaptive=c.adaptive, includes_right_edge=c.ire)
+        if c.minkind == "min":
+            kw["min"] = b.real("m")
+        elif c.minkind == "times_min":
+            kw["bin_times_min"] = b.int("t")
+        elif c.minkind == "shift":
+            kw["bin_shift"] = b.real("s")
+            kw["bin_times_min"] = b.int("t")
+        return kw
+
+    @ensures("well_formed_grid")
+    def _(a, old, result):
+        s = a.self
+        cs = [s._bin_width == old.bin_width, s._bin_width > 0, s._bin_count == old.bin_count, s._bin_count >= 0,
+              is_none(attr(s, "_bins")), is_none(attr(s, "_numpy_bins"))]
+        if hasattr(old, "min"):
+            # the first edge is exactly the requested minimum: min = times_min * width + shift, 0 <= shift < width
+            cs += [grid(s._times_min, s._bin_width, s._shift, 0) == old.min, s._shift >= 0, s._shift < s._bin_width]
+        elif hasattr(old, "bin_times_min"):
+            cs += [s._times_min == old.bin_times_min]
+        return And(*cs)
+
+    @raises(ValueError, "invalid_specifications_refused")
+    def _(o):
+        has_min = hasattr(o, "min")
+        has_t = hasattr(o, "bin_times_min") or hasattr(o, "bin_shift")
+        return Or(o.bin_width <= 0, o.bin_count < 0, has_min and has_t, And(o.bin_count == 0, has_min or hasattr(o, "bin_times_min")),
+                  o.adaptive and o.includes_right_edge)
+
+
+@contract(K + "._force_new_min_max", props=["C05", "C04"])
+class _fnmm:
+    bounded = True
+    bound_note = "_force_new_min_max / _adapt: bin counts <= 3 (the returned bin map is a sequence of that length); grid positions symbolic"
+
+    def configs():
+        return [{"c": c} for c in (1, 2, 3)]
+
+    def inputs(b):
+        me = fixed_width(b, "B", count=b.cfg.c, adaptive=True)
+        nmin, nmax = b.int("new_min"), b.int("new_max")
+        return dict(self=me, new_min=nmin, new_max=nmax)
+
+    @ensures("grows_to_cover_both_and_maps_old_bins_by_a_shift")
+    def _(a, old, result):
+        s, o = a.self, old.self
+        t0, c0 = o._times_min, o._bin_count
+        lo = fmin(t0, old.new_min)
+        hi = fmax(t0 + c0, old.new_max)
+        cs = [s._times_min == lo, s._times_min + s._bin_count == hi, s._bin_width == o._bin_width, s._shift == o._shift]
+        if result is None:
+            cs += [lo == t0, hi == t0 + c0]
+        else:
+            items = list(result.items if hasattr(result, "items") and not isinstance(result, dict) else result)
+            cs.append(len(items) == c0)
+            for i, (old_i, new_i) in enumerate(items):
+                cs += [old_i == i, new_i == i + (t0 - s._times_min)]
+            cs.append(Or(lo != t0, hi != t0 + c0))
+        return And(*cs)
+
+
+@contract(K + "._adapt", props=["C05"])
+class _adapt:
+    bounded = True
+    bound_note = "_force_new_min_max / _adapt: bin counts <= 3 (the returned bin map is a sequence of that length); grid positions symbolic"
+
+    def configs():
+        return [{"c1": a, "c2": b_} for a in (0, 1, 2) for b_ in (0, 1, 2)]
+
+    def inputs(b):
+        me = fixed_width(b, "B", count=b.cfg.c1, adaptive=True)
+        other = b.obj(K, _consecutive=None, _bins=None, _numpy_bins=None, _includes_right_edge=False, _adaptive=True,
+                      _bin_width=me._bin_width, _align=True, _bin_count=b.cfg.c2, _times_min=(b.int("O.t") if b.cfg.c2 else None), _shift=me._shift)
+        return dict(self=me, other=other)
+
+    @ensures("union_of_both_ranges_on_the_common_grid")
+    def _(a, old, result):
+        s, o, p = a.self, old.self, old.other
+        cs = [s._bin_width == o._bin_width, s._shift == o._shift, same_binning(old.other, a.other)]
+        c1, c2 = o._bin_count, p._bin_count
+        if c2 == 0:
+            cs += [c1 == 0 or s._times_min == o._times_min, s._bin_count == c1]
+        elif c1 == 0:
+            cs += [s._times_min == p._times_min, s._bin_count == c2]
+        else:
+            lo, hi = fmin(o._times_min, p._times_min), fmax(o._times_min + c1, p._times_min + c2)
+            cs += [s._times_min == lo, s._times_min + s._bin_count == hi]
+            m1, m2 = result
+            for m, (t_src, c_src) in ((m1, (o._times_min, c1)), (m2, (p._times_min, c2))):
+                if m is None:
+                    cs += [t_src == lo, t_src + c_src == hi]
+                else:
+                    items = list(m.items) if hasattr(m, "items") and not isinstance(m, dict) else list(m)
+                    cs.append(len(items) == c_src)
+                    for i, (oi, ni) in enumerate(items):
+                        cs += [oi == i, ni == i + (t_src - lo)]
+        return And(*cs)
